@@ -36,9 +36,14 @@ theorem pawnHash_incremental (b : Board) (m : Move) (h : HashMoveOK b m.f) :
 #print axioms pawnHash_incremental
 
 /- TARGET (not yet proved): the link from the generator to `HashMoveOK`,
-     theorem legal_hashMoveOK (b : Board) (hwf : WF.wf b = true) (m : Move) (hm : m ∈ genLegal b) : HashMoveOK b m.f
-   (needs the generator invariants and `decode (encode f) = f`; it is evaluated below for every pseudo-legal move of
-   several concrete positions instead).  `hash_incremental`/`pawnHash_incremental` are complete relative to it. -/
+     theorem genPseudo_hashMoveOK (b : Board) (hwf : WF.wf b = true) (m : Move) (hm : m ∈ genPseudo b) :
+       HashMoveOK b m.f
+   and with it the unconditional form `WF.wf b → m ∈ genLegal b → hash (make b m) = hash b ^^^ (xorOf m.f).1`.
+   It needs the generator invariants and `decode (encode f) = f`.  Compared with a make/unmake-style applicability
+   predicate, `HashMoveOK` additionally asks for three facts that only `zobrist_xor` uses: `f.side = b.turn`, the packed
+   source of a castling move is E1/E8 (hard-coded in `zobrist_xor`), and the e.p. victim square `target ± 8` is in range.
+   Instead of the general link, `HashMoveOK` is kernel-evaluated in §5 on every pseudo-legal move of eight positions that
+   exercise all branches.  `hash_incremental`/`pawnHash_incremental` are complete relative to `HashMoveOK`. -/
 
 /-! ## 2. What the hash depends on -/
 
@@ -406,6 +411,9 @@ def epB := "rnbqkbnr/ppp1p1pp/8/8/3pPp2/8/PPPP1PPP/RNBQKBNR b KQkq e3 0 3"
 /-- promotions with and without capture -/
 def promoW := "r3k2r/Pppp1ppp/1b3nbN/nP6/BBP1P3/q4N2/Pp1P2PP/R2Q1RK1 w kq - 0 1"
 def promoB := "r2q1rk1/pP1p2pp/Q4n2/bbp1p3/Np6/1B3NBn/pPPP1PPP/R3K2R b KQ - 0 1"
+/-- a small position with a castling move, an e.p. capture, promotions with and without capture (taking the a8 rook,
+which costs black the queen-side right), king and rook moves that lose the white right -/
+def mixed := "r3k3/1P6/8/3pP3/8/8/8/4K2R w Kq d6 0 2"
 
 -- `HashMoveOK` holds for every generated move of these positions (so the hypothesis of §1 is satisfiable, for every
 -- branch: castle, en passant, promotion, capture, quiet)
@@ -416,6 +424,7 @@ example : allMovesOK epW 31 = true := by decide +kernel
 example : allMovesOK epB 31 = true := by decide +kernel
 example : allMovesOK promoW 38 = true := by decide +kernel
 example : allMovesOK promoB 38 = true := by decide +kernel
+example : allMovesOK mixed 25 = true := by decide +kernel
 
 -- hence the incremental identities for every legal move of e.g. the castling-rich position
 example (m : Move) (hm : m ∈ genLegal (bd kiwipeteW)) :
@@ -425,9 +434,9 @@ example (m : Move) (hm : m ∈ genLegal (bd kiwipeteW)) :
   ⟨hash_incremental _ m h, pawnHash_incremental _ m h⟩
 
 -- independent evaluation of both sides of the identities by the kernel (model sanity, not using the theorems)
-example : (genPseudo (bd promoB)).all (fun m =>
-    Zobrist.hash (make (bd promoB) m) == Zobrist.hash (bd promoB) ^^^ (xorOf m.f).1
-      && pawnHash (make (bd promoB) m) == pawnHash (bd promoB) ^^^ (xorOf m.f).2) = true := by decide +kernel
+example : (genPseudo (bd mixed)).all (fun m =>
+    Zobrist.hash (make (bd mixed) m) == Zobrist.hash (bd mixed) ^^^ (xorOf m.f).1
+      && pawnHash (make (bd mixed) m) == pawnHash (bd mixed) ^^^ (xorOf m.f).2) = true := by decide +kernel
 
 /-- play generated moves given in UCI notation (stops at the first one the generator does not produce) -/
 def playUci : Board → List String → Board
